@@ -50,39 +50,48 @@ func c13resolve(c *core.Ctx, r *core.Report) {
 	}
 	got := map[string]string{}
 	nMap := 0
-	for _, f := range fns {
-		for _, b := range f.Blocks {
-			for _, ins := range b.Instrs {
-				call, ok := ins.(*ssa.Call)
-				if !ok || call.Call.IsInvoke() || len(call.Call.Args) != 2 {
-					continue
-				}
-				sig, ok := call.Call.Value.Type().Underlying().(*types.Signature)
-				if !ok || sig.Results().Len() != 0 || sig.Params().Len() != 2 || !isNodePtr(sig.Params().At(0).Type()) || !isNodePtr(sig.Params().At(1).Type()) {
-					continue
-				}
-				if sc := call.Call.StaticCallee(); sc != nil && sc.Parent() == nil {
-					continue // a package-level function, not the mapping closure
-				}
-				nMap++
-				src, dst := call.Call.Args[0], call.Call.Args[1]
-				ss, ds := core.NewReadPaths(c, src), core.NewReadPaths(c, dst)
-				if os.Getenv("R13_DEBUG") != "" {
-					fmt.Printf("DEBUG map call at %s\n  src paths %v calls %v\n  dst paths %v\n", c.Pos(call.Pos()), ss.Paths, ss.Calls, ds.Paths)
-				}
-				if a := valueNodeArg(src); a != nil {
-					rp := core.NewReadPaths(c, a)
-					if rp.HasSuffix("Call", "Value") && !rp.HasSuffix("Call", "Args") && ds.HasSuffix("Params") {
-						got["receiver"] = c.Pos(call.Pos())
-					}
-				}
-				if ss.HasSuffix("Call", "Args") && ds.HasSuffix("Params") {
-					got["args"] = c.Pos(call.Pos())
-				}
-				if ss.HasSuffix("Call", "Value") && ds.HasSuffix("FreeVars") {
-					got["freevars"] = c.Pos(call.Pos())
-				}
+	isMapping := func(ins ssa.Instruction) bool {
+		call, ok := ins.(*ssa.Call)
+		if !ok || call.Call.IsInvoke() {
+			return false
+		}
+		sig, ok := call.Call.Value.Type().Underlying().(*types.Signature)
+		if !ok || sig.Results().Len() != 0 {
+			return false
+		}
+		// exactly two *Node operands (a method's receiver comes first in the SSA argument list)
+		args := call.Call.Args
+		if sig.Recv() != nil && len(args) > 0 {
+			args = args[1:]
+		}
+		return len(args) == 2 && isNodePtr(args[0].Type()) && isNodePtr(args[1].Type())
+	}
+	check := func(ii core.InlinedInstr) {
+		call := ii.Ins.(*ssa.Call)
+		nMap++
+		n := len(call.Call.Args)
+		src, dst := call.Call.Args[n-2], call.Call.Args[n-1]
+		ss, ds := ii.Slice(src), ii.Slice(dst)
+		if os.Getenv("R13_DEBUG") != "" {
+			fmt.Printf("DEBUG map call at %s\n  src paths %v calls %v\n  dst paths %v\n", c.Pos(call.Pos()), ss.Paths, ss.Calls, ds.Paths)
+		}
+		if a := valueNodeArg(src); a != nil {
+			rp := ii.Slice(a)
+			if rp.HasSuffix("Call", "Value") && !rp.HasSuffix("Call", "Args") && ds.HasSuffix("Params") {
+				got["receiver"] = c.Pos(call.Pos())
 			}
+		}
+		if ss.HasSuffix("Call", "Args") && ds.HasSuffix("Params") {
+			got["args"] = c.Pos(call.Pos())
+		}
+		if ss.HasSuffix("Call", "Value") && ds.HasSuffix("FreeVars") {
+			got["freevars"] = c.Pos(call.Pos())
+		}
+	}
+	// Resolve and its closures, each with the package functions they call statically (two levels), inlined
+	for _, f := range fns {
+		for _, ii := range core.InlinedInstrs(c, f, 2, isMapping) {
+			check(ii)
 		}
 	}
 	why := map[string]string{
@@ -91,7 +100,11 @@ func c13resolve(c *core.Ctx, r *core.Report) {
 		"freevars": "the objects captured by a called closure are not mapped to the callee's free variables: accesses through captured variables are classified local",
 	}
 	for _, k := range []string{"receiver", "args", "freevars"} {
-		r.Check(got[k] != "", "R13.resolve", "analysis/escape.escapeCallsiteInfoImpl.Resolve|"+k, got[k], "binding present", why[k])
+		pos := got[k]
+		if pos == "" {
+			pos = c.Pos(fn.Pos())
+		}
+		r.Check(got[k] != "", "R13.resolve", "analysis/escape.escapeCallsiteInfoImpl.Resolve|"+k, pos, "binding present", why[k])
 	}
 	if nMap == 0 {
 		r.Fail("R13.resolve", "analysis/escape.escapeCallsiteInfoImpl.Resolve|mapping-calls", c.Pos(fn.Pos()), "no call of a func(*Node, *Node) mapping closure found")
